@@ -39,7 +39,9 @@ theorem prevOf_at {s : St} (w : WF s) {o : Bool} {A B : List Nat} {t : Nat} (h :
 theorem front_eq {s : St} (w : WF s) (o : Bool) : front s o = (s.seq o).head?.getD 0 := by
   unfold front
   rw [w.len o, (ring_root (w.ring o)).1]
-  cases s.seq o <;> simp
+  cases s.seq o with
+  | nil => simp
+  | cons a T => rw [if_neg (by simp only [List.length_cons]; omega)]; simp
 
 theorem back_eq {s : St} (w : WF s) (o : Bool) : back s o = (s.seq o).getLast?.getD 0 := by
   unfold back
@@ -50,7 +52,7 @@ theorem back_eq {s : St} (w : WF s) (o : Bool) : back s o = (s.seq o).getLast?.g
     have : (b :: T).getLast? ≠ none := by simp
     cases hl : (b :: T).getLast? with
     | none => exact absurd hl this
-    | some c => simp
+    | some c => rw [if_neg (by simp only [List.length_cons]; omega)]; simp
 
 /-! ### insertValue: projections -/
 
@@ -117,7 +119,8 @@ theorem pushBackList_ok {s : St} (w : WF s) (l o : Bool) : StepOk s (.pushBackLi
   unfold StepOk
   simp only [step, sstep, lazyInit_eq w]
   have := pbl_loop l o (s.seq o) [] [] s w (by simp)
-  rw [← w.len o, ← front_eq w o] at this
+  have hlen : (s.len o).toNat = (s.seq o).length := by rw [w.len o]; exact Int.toNat_natCast _
+  rw [← hlen, ← front_eq w o] at this
   exact ⟨this.1, by first | trivial | rfl, this.2⟩
 
 /-! ### PushFrontList -/
@@ -165,7 +168,8 @@ theorem pushFrontList_ok {s : St} (w : WF s) (l o : Bool) : StepOk s (.pushFront
   unfold StepOk
   simp only [step, sstep, lazyInit_eq w]
   have := pfl_loop l o (s.seq o).reverse [] [] s w (by simp)
-  rw [List.length_reverse, List.head?_reverse, ← w.len o, ← back_eq w o, List.map_reverse] at this
+  have hlen : (s.len o).toNat = (s.seq o).length := by rw [w.len o]; exact Int.toNat_natCast _
+  rw [List.length_reverse, List.head?_reverse, ← hlen, ← back_eq w o, List.map_reverse] at this
   exact ⟨this.1, by first | trivial | rfl, this.2⟩
 
 /-! ### every operation -/
